@@ -8,17 +8,19 @@ GRIDS_THOROUGH = GRIDS_QUICK + [(2, 6), (2, 7), (3, 4), (4, 3), (5, 3), (2, 8), 
 def search(chk, rng, n_points):
     """direct oracle on the implementation: concrete failing inputs"""
     found = 0
-    for n, m in [(2, 3), (3, 2), (2, 5), (4, 2), (5, 2)]:
-        fails, _ = O.guarded(lambda c: O.c07_cells(n, m), None) if False else O.c07_cells(n, m)
+    for n, m in [(2, 3), (3, 2), (2, 5), (4, 2), (5, 2), (2, 4), (3, 3), (2, 2)]:
+        lo, hi = H.random_box(rng, n, nice=True)
+        pre = O.random_prehistory(rng, n, lo, hi) if (n, m) not in ((2, 3), (3, 2)) else []
+        fails = O.guarded(lambda c: O.c07_cells(n, m, lo, hi, pre)[0], None)
         chk.evaluations += 2 ** (n * m)
         for f in fails[:1]:
-            found += chk.violation('cells', f, {'kind': 'cells', 'n': n, 'm': m})
+            found += chk.violation('cells', f, {'kind': 'cells', 'n': n, 'm': m, 'lo': lo, 'hi': hi, 'prehistory': pre})
     for _ in range(n_points):
         n = rng.choice([1, 2, 3, 4, 5])
         m = 10 if n == 1 else rng.choice([1, 2, 3, 5, 10, 50 // n])
         lo, hi = H.random_box(rng, n)
         for x in evo_corr.edge_xs(rng, n, m)[:6] + [rng.random()]:
-            case = {'n': n, 'm': m, 'lo': lo, 'hi': hi, 'x': x}
+            case = {'n': n, 'm': m, 'lo': lo, 'hi': hi, 'x': x, 'prehistory': O.random_prehistory(rng, n, lo, hi)}
             fails = O.guarded(O.c07_point, case)
             chk.evaluations += 1
             if fails:
@@ -56,11 +58,11 @@ def run(chk):
 def replay(chk, rp):
     if rp.get('kind') == 'point' or 'case' in rp and 'x' in rp['case']:
         c = rp['case']
-        fails = O.guarded(O.c07_point, {k: c[k] for k in ('n', 'm', 'lo', 'hi', 'x')})
+        fails = O.guarded(O.c07_point, {k: c.get(k) for k in ('n', 'm', 'lo', 'hi', 'x', 'prehistory')})
         print(fails)
         return not fails
     if rp.get('kind') == 'cells':
-        fails, _ = O.c07_cells(rp['n'], rp['m'])
+        fails, _ = O.c07_cells(rp['n'], rp['m'], rp.get('lo'), rp.get('hi'), rp.get('prehistory'))
         print(fails)
         return not fails
     print('replay names a broken obligation; re-run the check')
